@@ -198,6 +198,15 @@ def check_cli_files(ctx, count):
             extra = ["-n", "asm"] if naming == "name-option" else []
             r = CliRunner().invoke(cli, args + extra + ["-o", str(outp)])
             inp = {"inputs": texts, "in_fmt": in_fmt, "out_fmt": out_fmt, "file_naming": naming}
+            # the same run through the model of the CLI (Model/AsmFormat.lean): text written to the output file and exception class
+            if ctx.driver:
+                from pathlib import Path as _P
+                req = {"id": 0, "kind": "asmformat", "input_format": None, "output_file": outp.name, "format": None,
+                       "name": ("asm" if naming == "name-option" else None), "qc": False,
+                       "files": [{"name": _P(a_).name, "text": t_} for a_, t_ in zip(args, texts)], "stdin": ""}
+                m = ctx.driver.batch([req])[0]
+                real_run = {"written": outp.read_text() if outp.exists() else "", "error": (conv.errkind(r.exception) if r.exception is not None and not isinstance(r.exception, SystemExit) else None)}
+                out.compare("cli-files:model", inp, real_run, {"written": m["written"], "error": m["error"]}, ("asmformat", k, in_fmt, out_fmt, naming))
             out.case("cli-files", inp, ("cli-files", k, in_fmt, out_fmt, naming, r.exit_code))
             if r.exit_code != 0 or not outp.exists():
                 out.oracle_fail("cli-files", inp, f"asm-format failed on well-formed files (exit {r.exit_code})")
